@@ -60,6 +60,7 @@ type env struct {
 	shadow   *node // committed
 	work     *node // inside a write tx
 	validOps int
+	written  []string
 }
 
 func validName(s string) bool { return len(s) > 0 && len(s) <= 256 && !strings.Contains(s, "_") }
@@ -115,6 +116,7 @@ func (e *env) reset() {
 	e.handles = nil
 	e.shadow = newNode()
 	e.work = nil
+	e.written = nil
 }
 
 func (e *env) dbdir() string { return filepath.Join(e.dir, fmt.Sprintf("db%d", e.seq)) }
@@ -334,6 +336,7 @@ func (e *env) apply(line string) string {
 		if nd != nil {
 			nd.kv[string(k)] = string(v)
 		}
+		e.written = append(e.written, string(k))
 		return "ok"
 	case "get":
 		k, ok := arg(2)
@@ -444,8 +447,8 @@ func showNames(ns []string) string {
 
 // ---- generator ----
 
-var namePool = []string{"km", "a", "b", "ab", "1", "2", "10", "b", "x", "km", "acc", "a_b", "", "_", "1_km", "b_1_km"}
-var keyPool = []string{"k", "k1", "k12", "a", "a_k", "_", "", "b_k", "x_k", "2_km_x_k", "km", "1_km_k", "\x00", "\xff", "k\x00", "_k", "x_", "b"}
+var namePool = []string{"a", "ab", "abc", "a", "ab", "1", "2", "10", "b", "a1", "km", "a_b", "", "_", "1_a", "b_1_a"}
+var keyPool = []string{"k", "k1", "k12", "a", "a_k", "_", "", "b_k", "b_k", "2_a_ab_k", "ab", "1_a_k", "\x00", "\xff", "k\x00", "_k", "b_", "b", "c_k", "bc_k"}
 var valPool = []string{"v", "v2", "", "\x00", "value_with_sep", "b_1_km"}
 
 func (e *env) genName() []byte {
@@ -464,6 +467,9 @@ func (e *env) genName() []byte {
 }
 func (e *env) genKey() []byte {
 	r := e.h.Rng
+	if len(e.written) > 0 && r.Intn(2) == 0 {
+		return []byte(e.written[r.Intn(len(e.written))])
+	}
 	if r.Intn(10) == 0 {
 		b := make([]byte, r.Intn(4))
 		r.Read(b)
@@ -490,7 +496,7 @@ func (e *env) genOp() string {
 		}
 	}
 	nh := len(e.handles)
-	if nh == 0 || r.Intn(8) == 0 {
+	if nh == 0 || r.Intn(12) == 0 {
 		if e.mode == "w" && r.Intn(2) == 0 {
 			return "ctop " + hx.Hex(e.genName())
 		}
@@ -569,6 +575,22 @@ func main() {
 	} else {
 		for s := 0; s < h.N; s++ {
 			h.Emit("reset", e.apply("reset"))
+			if h.Rng.Intn(10) < 7 {
+				// preamble: a small tree whose names and keys are prefixes / imitations of one another
+				pre := []string{"begin", "ctop " + hx.Hex([]byte("a")), "ctop " + hx.Hex([]byte("ab")),
+					"new 0 " + hx.Hex([]byte("a")), "new 0 " + hx.Hex([]byte("ab")), "new 1 " + hx.Hex([]byte("a")),
+					"new 2 " + hx.Hex([]byte("b")), "new 0 " + hx.Hex([]byte("1")), "new 0 " + hx.Hex([]byte("10"))}
+				for _, op := range pre {
+					h.Emit(op, e.apply(op))
+				}
+				for i := 0; i < 6+h.Rng.Intn(10); i++ {
+					op := "put " + strconv.Itoa(h.Rng.Intn(len(e.handles))) + " " + hx.Hex(e.genKey()) + " " + hx.Hex([]byte(valPool[h.Rng.Intn(2)]))
+					h.Emit(op, e.apply(op))
+				}
+				if h.Rng.Intn(2) == 0 {
+					h.Emit("commit", e.apply("commit"))
+				}
+			}
 			n := 5 + h.Rng.Intn(h.Len)
 			for i := 0; i < n; i++ {
 				op := e.genOp()
